@@ -141,7 +141,8 @@ def random_case(rng, n):
 def random_extra(rng, kinds):
     """a cross-reference feature (schema: harness/c05proj.py EXTRA_VARIANTS) attached to the graph"""
     from .. import c05proj as P
-    k = rng.choice(['arrlen', 'fieldarr', 'clos', 'clos', 'shadow', 'shadow', 'klass', 'cont', 'cont', 'exotic'])
+    k = rng.choice(['arrlen', 'fieldarr', 'clos', 'clos', 'shadow', 'shadow', 'klass', 'cont', 'cont', 'exotic',
+                    'movedm', 'movedm', 'vslot'])
     recs = [i + 1 for i, x in enumerate(kinds) if x == 'record']
     tdefs = [i + 1 for i, x in enumerate(kinds) if x not in ('function', )]
     return dict(kind=k, v=rng.choice(P.EXTRA_VARIANTS[k]), tgt=rng.choice(tdefs + [0]) if tdefs else 0,
@@ -162,7 +163,7 @@ def sweep_cases(full):
         for v in P.EXTRA_VARIANTS[k]:
             combos = [(h, b, t) for h in (0, 1) for b in ['fund'] + bads for t in (2, 3, 1, 4, 0)] if full else \
                      [(0, 'fund', [3, 2, 1, 4, 0][i % 5]), (1, bads[i % 3], [2, 3][(i // 3) % 2])]
-            if full and (k in ('klass', 'exotic', 'fieldarr', 'shadow') or (k == 'cont' and ':node:' not in v)):
+            if full and (k in ('klass', 'exotic', 'fieldarr', 'shadow', 'movedm', 'vslot') or (k == 'cont' and ':node:' not in v)):
                 combos = [c for c in combos if c[2] == 2]                     # no type slot: the target does not matter
             for host, bad, tgt in combos:
                 site = lambda role, tk, t=0: dict(role=role, cont='none', tk=tk, tgt=t, xfer=True, scope=False, vskip=False)
@@ -222,7 +223,21 @@ def mc_many(ck, jobs, concurrent):
 WALK_ACTIONS = ['AliasAnalysis', 'SkipPropagation', 'AnalyzeNode', 'CallableAnalysis1', 'CallableAnalysis2', 'PropertyAnalysis',
                 'Pass3', 'BackcompatRemoval', 'SymbolCollisions', 'Build', 'StartWalks', 'Write']
 CORE = ['UsesResolve', 'UsesIntrospectable', 'NoVarargs', 'NoLongLong', 'TransferStated', 'ScopeStated', 'ElementTyped',
-        'IndexInRange', 'TypeStructMutual', 'AccessorAgree', 'AccessorMutual', 'InvokerIsMethod', 'ShadowsMutual']
+        'IndexInRange', 'IndexNames', 'TypeStructMutual', 'AccessorAgree', 'AccessorMutual', 'InvokerIsMethod', 'ShadowsMutual']
+
+
+def fill_wants(case, idx, P):
+    """idx records of the declarations rendered from extra i (their GIR paths carry x<i>): want = the parameter /
+    field name the rendered annotation named (harness/c05proj.extra_wants)"""
+    for i, x in enumerate(case.get('extras', []), 1):
+        wants = P.extra_wants(x)
+        if not wants:
+            continue
+        pat = re.compile(r'(?<![0-9A-Za-z])[xX]%d(?![0-9])' % i)
+        for r in idx:
+            leaf = r['id'].rsplit('/', 1)[-1]
+            if (r['kind'], leaf) in wants and pat.search(r['id']):
+                r['want'] = wants[(r['kind'], leaf)]
 
 
 def features_of(case, element):
@@ -374,6 +389,7 @@ def run():
             continue
         tree = S.girabs(res_.xml)
         o = P.project(tree, it['id'], dep, partial=PARTIAL, inferred=True)     # the renderer writes no accessor annotations
+        fill_wants(it['case'], o['idx'], P)
         o['marks'] = P.marks_of(tree)
         o['model'] = dict(nodes=it['case']['nodes'], order=it['case']['order'], names=rr['names'])
         obs.append(o)
